@@ -10,8 +10,10 @@ import (
 
 	"github.com/yorkie-team/yorkie/pkg/document"
 	"github.com/yorkie-team/yorkie/pkg/document/change"
+	"github.com/yorkie-team/yorkie/pkg/document/crdt"
 	"github.com/yorkie-team/yorkie/pkg/document/json"
 	"github.com/yorkie-team/yorkie/pkg/document/presence"
+	"github.com/yorkie-team/yorkie/pkg/document/time"
 )
 
 func init() { register("docupd", runDocUpd) }
@@ -69,12 +71,22 @@ func runDocUpd(c *Ctx) error {
 		"root Marshal, clone Marshal, pending change count compared after every step; non-trivial = trace contains a " +
 		"failing or panicking callback with j >= 1 followed by a successful update; distinct by trace hash"
 	r := c.Rng
+	defer func() { noArraySet = false }()
 	if c.Replay != nil && !c.ReplaySeed("docupd") {
 		return fmt.Errorf("docupd: replay needs a `T docupd-<seed>-<i>` line (traces are regenerated from the seed)")
 	}
 	r = c.Rng
 	for i := 0; i < c.N; i++ {
 		c.Trace(fmt.Sprintf("docupd-%d-%d", c.Seed, i))
+		// two modes per trace: GC on (acknowledgements carry the minimum version vector) and no
+		// set-by-index, or GC off with set-by-index allowed (see noArraySet)
+		gcMode := r.Intn(2) == 0
+		noArraySet = gcMode
+		if gcMode {
+			c.Count("trace:gc-on")
+		} else {
+			c.Count("trace:gc-off-with-arrayset")
+		}
 		d := document.New("doc-upd")
 		d.SetActor(mkActor(r, 0))
 		d.SetStatus(document.StatusAttached)
@@ -82,6 +94,9 @@ func runDocUpd(c *Ctx) error {
 		peer.SetActor(mkActor(r, 1))
 		peer.SetStatus(document.StatusAttached)
 		var peerDelivered int
+		var dDelivered int
+		purged := false
+		_ = purged
 		sawFail, nontrivial := false, false
 		steps := 6 + r.Intn(24)
 		for s := 0; s < steps; s++ {
@@ -182,8 +197,16 @@ func runDocUpd(c *Ctx) error {
 					nontrivial = true
 				}
 			case x < 88: // remote changes from the peer
+				// the peer only sets keys of the root object / bumps counters: it never anchors an
+				// operation next to deleted array content, so running GC on `d` (below) stays inside
+				// the region where C03's known findings cannot occur
 				if err := peer.Update(func(root *json.Object, p *presence.Presence) error {
-					randomEdit(r, root, c)
+					k := crdtKeys[r.Intn(len(crdtKeys))]
+					if _, isCnt := root.Object.Get(k).(*crdt.Counter); isCnt && r.Intn(2) == 0 {
+						root.GetCounter(k).Increase(r.Intn(100))
+					} else {
+						root.SetInteger(k, r.Intn(1000))
+					}
 					return nil
 				}); err != nil {
 					return err
@@ -212,16 +235,35 @@ func runDocUpd(c *Ctx) error {
 				// the peer also needs d's view to stay causally sane for later edits: not required here
 				c.Cmd("REM")
 				c.Obs("done")
-			default: // acknowledge all local changes
+			default: // acknowledge all local changes; the peer pulls them, so GC can run on `d`
 				p := d.CreateChangePack()
 				n := len(p.Changes)
-				resp := change.NewPack(d.Key(), change.NewCheckpoint(d.Checkpoint().ServerSeq, p.Checkpoint.ClientSeq), nil, nil, nil)
+				var minVV time.VersionVector
+				if wire, err := roundTrip(p.Changes[dDelivered:]); err == nil {
+					dDelivered = 0 // all pending changes are acknowledged below
+					if err := peer.ApplyChangePack(change.NewPack(peer.Key(),
+						peer.Checkpoint().NextServerSeq(peer.Checkpoint().ServerSeq+int64(len(wire))), wire, nil, nil)); err != nil {
+						c.Oracle("peer failed to apply the author's changes: %v", err)
+					} else {
+						// what the server hands out: the minimum over the attached clients' vectors
+						if gcMode {
+							minVV = time.MinVersionVector(d.VersionVector(), peer.VersionVector())
+							c.Count("ack:with-gc-vector")
+						}
+					}
+				}
+				garbageBefore := d.GarbageLen()
+				resp := change.NewPack(d.Key(), change.NewCheckpoint(d.Checkpoint().ServerSeq, p.Checkpoint.ClientSeq), nil, minVV, nil)
 				if rec := safely(func() {
 					if err := d.ApplyChangePack(resp); err != nil {
 						c.Oracle("ack failed: %v", err)
 					}
 				}); rec != nil {
 					c.Oracle("ack panicked: %v", rec)
+				}
+				if d.GarbageLen() < garbageBefore {
+					c.Count("ack:purged-something")
+					purged = true
 				}
 				c.Cmd("ACK %d", n)
 				c.Obs("done")
